@@ -165,6 +165,7 @@ class StackStream(Stream):
 
     def run(self, d):
         saved = list(lk.sol_list)
+        lk.sol_list[:] = [lk.Solver()]     # a fresh default solver per case (else it grows without bound)
         r = Runner()
         exc = False
         try:
